@@ -142,13 +142,13 @@ static int parse_case(const char *line, lcase_t *lc)
 
 static double pow2(int cls)
 {
-    return ldexp(1.0, 27 * cls);
+    return ldexp(1.0, 28 * cls);
 }
 
 /*
  * build_matrix: the n x n system matrix of the case.
  *   G0  unscaled (rows permuted, duplicates applied)
- *   G   what is given to the library: row i of G0 times 2^(27 scale[i])
+ *   G   what is given to the library: row i of G0 times 2^(28 scale[i])
  *   actual pattern (after permutation / duplication) goes to apat
  * Entry (i,j) = random value where pat[perm[i]][j] = 1, exact 0 elsewhere.
  * graded: a third of the entries is 2^-30 times smaller.
@@ -324,28 +324,29 @@ static void do_conv(const lcase_t *lc)
 			/ z0[j];
 	scaled = 0;
     } else if (strcmp(fn, "ztos") == 0) {
-	/* G = Z + Z0, symmetric scaling Z' = D Z D, z0' = D^2 z0 */
+	/*
+	 * G = Z + Z0.  Row scaling: Z' = D Z, z0' = D z0, so that the
+	 * library's matrix Z' + Z0' = D (Z + Z0) is the row-scaled one and
+	 * S' = D^1/2 S D^-1/2 (D = even powers of two: exact).
+	 */
 	for (int i = 0; i < n; ++i) {
 	    for (int j = 0; j < n; ++j) {
 		double complex g = G0[i * n + j] * 64.0;
 
-		in[i * n + j] = (g - (i == j ? z0[i] : 0.0)) *
-		    dscale(lc, i) * dscale(lc, j);
+		in[i * n + j] = (g - (i == j ? z0[i] : 0.0)) * dscale(lc, i);
 	    }
 	}
 	for (int i = 0; i < n; ++i)
-	    z0[i] *= dscale(lc, i) * dscale(lc, i);
-    } else {	/* ytos: G = 1 + Z0 Y, Y' = D^-1 Y D^-1, z0' = D^2 z0 */
+	    z0[i] *= dscale(lc, i);
+    } else {	/* ytos: G = 1 + Z0 Y (no row scaling through the inputs) */
 	for (int i = 0; i < n; ++i) {
 	    for (int j = 0; j < n; ++j) {
 		double complex g = G0[i * n + j];
 
-		in[i * n + j] = (g - (i == j ? 1.0 : 0.0)) / z0[i] /
-		    (dscale(lc, i) * dscale(lc, j));
+		in[i * n + j] = (g - (i == j ? 1.0 : 0.0)) / z0[i];
 	    }
 	}
-	for (int i = 0; i < n; ++i)
-	    z0[i] *= dscale(lc, i) * dscale(lc, i);
+	scaled = 0;
     }
     for (int i = 0; i < n; ++i)
 	k[i] = 1.0 / sqrt(fabs(creal(z0[i])));
@@ -401,37 +402,32 @@ static void do_conv(const lcase_t *lc)
 	left = 1;
     } else if (strcmp(fn, "ztos") == 0) {
 	/*
-	 * S' K' (Z' + Z0') = K' (Z' - Z0'*) with Z' = D Z D, z0' = D^2 z0,
-	 * K' = K D^-1: divide by D on both sides -> the unscaled system
-	 * S K (Z + Z0) = K (Z - Z0*), S = S'.
+	 * unscaled system S K (Z + Z0) = K (Z - Z0*) with Z = D^-1 Z',
+	 * z0 = D^-1 z0', S = D^-1/2 S' D^1/2
 	 */
 	for (int i = 0; i < n; ++i) {
 	    double di = dscale(lc, i);
-	    double ku = k[i] * di;	/* K of the unscaled z0 */
+	    double complex z0u = z0[i] / di;
+	    double ku = 1.0 / sqrt(fabs(creal(z0u)));
 
 	    for (int j = 0; j < n; ++j) {
-		double dj = dscale(lc, j);
-		double complex zu = in[i * n + j] / (di * dj);
-		double complex z0u = z0[i] / (di * di);
+		double complex zu = in[i * n + j] / di;
 
 		A[i * n + j] = ku * (zu + (i == j ? z0u : 0.0));
 		B[i * n + j] = ku * (zu - (i == j ? conj(z0u) : 0.0));
-		Xu[i * n + j] = X[i * n + j];
+		Xu[i * n + j] = X[i * n + j] * sqrt(dscale(lc, j)) /
+		    sqrt(di);
 	    }
 	}
 	left = 0;
     } else {
 	for (int i = 0; i < n; ++i) {
-	    double di = dscale(lc, i);
-	    double ku = k[i] * di;
-	    double complex z0u = z0[i] / (di * di);
-
 	    for (int j = 0; j < n; ++j) {
-		double dj = dscale(lc, j);
-		double complex yu = in[i * n + j] * (di * dj);
+		double complex yu = in[i * n + j];
 
-		A[i * n + j] = ku * ((i == j ? 1.0 : 0.0) + z0u * yu);
-		B[i * n + j] = ku * ((i == j ? 1.0 : 0.0) - conj(z0u) * yu);
+		A[i * n + j] = k[i] * ((i == j ? 1.0 : 0.0) + z0[i] * yu);
+		B[i * n + j] = k[i] * ((i == j ? 1.0 : 0.0) -
+			conj(z0[i]) * yu);
 		Xu[i * n + j] = X[i * n + j];
 	    }
 	}
@@ -638,7 +634,8 @@ static const char *t1_names[] = { "T8", "U8", "TE10", "UE10", "UE14", "E12" };
 static void do_tall(const lcase_t *lc)
 {
     int type = atoi(lc->fn) % 6;
-    int m = lc->m, zero = lc->n;	/* n field carries the zero flag */
+    int m = lc->m;
+    int zero = lc->nscale >= 1 && lc->scale[0] != 0;	/* zero-column flag */
     vnacal_new_t *vnp;
     m8_t e;
     double f = FREQ;
@@ -719,11 +716,10 @@ emit:
 
 /*
  * add the standard set of a p-port 8-term calibration from the model:
- * short/open/match on every port, through 1-k.  If A != NULL the
- * measurements are given in a/b form with a = A (p x p) for the throughs
- * and the 1x1 leading entry for reflects.
+ * short/open/match on every port, through 1-k (over-determined for p >= 2),
+ * or an exactly determined subset.
  */
-static int add_standards(vnacal_new_t *vnp, const m8_t *e)
+static int add_standards(vnacal_new_t *vnp, const m8_t *e, int exact)
 {
     int p = e->p;
     static const int std[3] = { VNACAL_SHORT, VNACAL_OPEN, VNACAL_MATCH };
@@ -741,6 +737,13 @@ static int add_standards(vnacal_new_t *vnp, const m8_t *e)
 	    double complex gv = g[s], mv;
 	    double complex *mp[1] = { &mv };
 
+	    /*
+	     * exactly determined sets (4p-1 equations): p = 1: short, open,
+	     * match; p = 2: through, match on both ports, short on port 1;
+	     * p = 3: two throughs, match on every port
+	     */
+	    if (exact && p >= 2 && s != 2 && !(p == 2 && port == 1 && s == 0))
+		continue;
 	    m8_measure(&one, &gv, &mv);
 	    if (LIB(vnacal_new_add_single_reflect_m(vnp, mp, 1, 1, std[s],
 			    port)) == -1)
@@ -770,7 +773,7 @@ static int add_standards(vnacal_new_t *vnp, const m8_t *e)
 
 /*
  * applym: p-port T8 / U8 calibration of a VNA whose receiver on port i has
- * gain 2^(27 scale[i]) (rows of every measurement matrix scaled), solved
+ * gain 2^(28 scale[i]) (rows of every measurement matrix scaled), solved
  * from exact data, then vnacal_apply_m on the exact measurement of a
  * random DUT.  Observation: the applied result reproduces the measurement
  * through the harness's own forward model (backward error in measurement
@@ -779,6 +782,7 @@ static int add_standards(vnacal_new_t *vnp, const m8_t *e)
 static void do_applym(const lcase_t *lc)
 {
     int p = lc->n, type = atoi(lc->fn) % 2;
+    int exact = lc->m == 1 && p <= 3;
     vnacal_new_t *vnp;
     m8_t e;
     double f = FREQ, worst = 0.0;
@@ -794,7 +798,8 @@ static void do_applym(const lcase_t *lc)
     vt_cb_reset();
     vnp = LIB(vnacal_new_alloc(vcp, type ? VNACAL_U8 : VNACAL_T8, p, p, 1));
     if (vnp != NULL && LIB(vnacal_new_set_frequency_vector(vnp, &f)) == 0 &&
-	    add_standards(vnp, &e) == 0 && LIB(vnacal_new_solve(vnp)) == 0) {
+	    add_standards(vnp, &e, exact) == 0 &&
+	    LIB(vnacal_new_solve(vnp)) == 0) {
 	snprintf(name, sizeof(name), "am%d", serial++);
 	if (LIB(vnacal_add_calibration(vcp, name, vnp)) != -1 &&
 		(ci = LIB(vnacal_find_calibration(vcp, name))) >= 0)
@@ -840,7 +845,8 @@ static void do_applym(const lcase_t *lc)
 		type, setup, rc, worst);
     vt_put("{\"e\":\"ApplyM\",\"type\":\"%s\",\"p\":%d,", type ? "U8" : "T8", p);
     put_ints("sc", lc->scale, lc->nscale);
-    vt_put(",\"setup\":%d,\"fin\":%d,\"res\":%d", setup, fin, res);
+    vt_put(",\"det\":\"%s\",\"setup\":%d,\"fin\":%d,\"res\":%d",
+	    exact || p == 1 ? "exact" : "over", setup, fin, res);
     put_result(rc == 0, err);
     vt_put("}");
     vt_end_line();
